@@ -401,6 +401,14 @@ func historyGen() *rapid.Generator[[]string] {
 }
 
 func replayCase(sub string, raw json.RawMessage) string {
+	if sub == "sequence" {
+		var c seqCase
+		if err := json.Unmarshal(raw, &c); err != nil {
+			return "bad replay: " + err.Error()
+		}
+		m, _ := checkSeq(c)
+		return m
+	}
 	var c isoCase
 	if err := json.Unmarshal(raw, &c); err != nil {
 		return "bad replay: " + err.Error()
@@ -430,6 +438,66 @@ func judge(t *rapid.T, sub string, c isoCase, nontrivial bool) {
 	}
 }
 
+// seqCase: one compiled query run over a sequence of inputs; every result
+// must equal the result a freshly compiled query gives for that input alone
+// (no state leaks from one run to the next through the compiled code, e.g.
+// through the regular-expression cache).
+type seqCase struct {
+	Query  string   `json:"query"`
+	Inputs []univ.V `json:"inputs"`
+}
+
+func renderRun(code *gojq.Code, in any) (string, bool) {
+	res := run.Exec(code, univ.Copy(in), steps, maxOuts)
+	if res.Budget {
+		return "", false
+	}
+	if res.Panic != "" {
+		return "PANIC " + res.Panic, true
+	}
+	s := marshalAll(res.Vals)
+	if res.Err != nil {
+		s += "error: " + res.Err.Error()
+	}
+	return s, true
+}
+
+func checkSeq(c seqCase) (msg, discard string) {
+	q, err := gojq.Parse(c.Query)
+	if err != nil {
+		return "", "parse-error"
+	}
+	shared, err := gojq.Compile(q)
+	if err != nil {
+		return "", "compile-error"
+	}
+	for i, in := range c.Inputs {
+		fresh, err := gojq.Compile(q)
+		if err != nil {
+			return "", "compile-error"
+		}
+		want, ok := renderRun(fresh, in.X)
+		if !ok {
+			return "", "budget"
+		}
+		got, ok := renderRun(shared, in.X)
+		if !ok {
+			return "", "budget"
+		}
+		if got != want {
+			return fmt.Sprintf("run %d of one compiled query on %s gives\n%s\na freshly compiled query gives\n%s", i+1, univ.Show(in.X), got, want), ""
+		}
+	}
+	return "", ""
+}
+
+var seqQueries = []string{
+	"test(.re; .flags)", "[match(.re; .flags)] | length", "sub(.re; \"x\"; .flags)", ".s | test(\"a.b\"; .flags)", ".s | [match(.re; .flags) | .string]", ".s | gsub(.re; \"-\"; .flags)?",
+	". as $i | .s | test($i.re; $i.flags)", ". as $i | .s | [splits($i.re; $i.flags)]", ". as $i | .s | capture($i.re; $i.flags)?", ". as $i | .s | [scan($i.re; $i.flags)]", ". as $i | try (.s | test($i.re; $i.flags)) catch \"error\"",
+	". as $i | .s | [test($i.re), test($i.re; $i.flags)]", ". as $i | .s | [test($i.re; $i.flags), test($i.re; null), test($i.re; \"g\")]", ". as $i | .s | sub($i.re; \"<\\(.)>\"; $i.flags)?",
+	".s | ascii_downcase", ".s | tojson | fromjson", ".s | ltrimstr(\"a\")", "[.s, .re] | join(\",\")", ".s | @base64 | @base64d", ".s | explode | implode", ".flags // \"none\"", ". as $i | [limit(2; .s | match($i.re; \"g\"))] | length",
+}
+
 func TestC05(t *testing.T) {
 	rec = evid.Open("C05")
 	defer rec.Close()
@@ -443,6 +511,35 @@ func TestC05(t *testing.T) {
 	}
 	specs := specGen()
 	vars := rapid.OneOf(rapid.Just[any]([]any{3, 1, 2}), rapid.Just[any]([]any{[]any{1}, []any{2, 3}}), rapid.Just[any](map[string]any{"a": []any{1, 2}, "b": map[string]any{"c": 1}}), gen.Value(gen.Opt{MaxDepth: 2, MaxWidth: 3, SmallInts: true}))
+
+	// one compiled query over a sequence of related inputs vs fresh compiles
+	rec.Rapid(t, "sequence", rec.Scale(20000, 800000), func(t *rapid.T) {
+		c := seqCase{Query: rapid.SampledFrom(seqQueries).Draw(t, "query")}
+		subj := rapid.SampledFrom([]string{"a\nb", "a.b", "aXb", "A\nB", "abab", "", "a b", "a\r\nb"}).Draw(t, "s")
+		re := rapid.SampledFrom([]string{"a.b", "A.B", "^b", "a$", ".", "(a)(.)?", "a b", "a.b|B", "(", "[", "a+", "(?<x>a).(?<y>b)"}).Draw(t, "re")
+		n := rapid.IntRange(2, 5).Draw(t, "n")
+		for i := 0; i < n; i++ {
+			var flags any = rapid.SampledFrom([]any{nil, "", "g", "i", "x", "s", "m", "n", "gi", "ig", "xs", "q", "gq", "l", "p", "sx", "is"}).Draw(t, "flags")
+			in := map[string]any{"s": subj, "re": re, "flags": flags}
+			if rapid.IntRange(0, 4).Draw(t, "other") == 0 {
+				in["re"] = rapid.SampledFrom([]string{"a.b", "b", "("}).Draw(t, "re2")
+			}
+			c.Inputs = append(c.Inputs, univ.V{X: in})
+		}
+		rec.Eval()
+		rec.Journal("sequence", c)
+		rec.Class("tier/sequence")
+		rec.Sample(c)
+		m, d := checkSeq(c)
+		if d != "" {
+			rec.Discard(d)
+			return
+		}
+		rec.NT("sequence\x00" + fmt.Sprint(c))
+		if m != "" {
+			t.Fatalf("%s", rec.Fail("sequence", c, "%s", m))
+		}
+	})
 
 	// mutation-heavy templates, alone and composed
 	rec.Rapid(t, "templates", rec.Scale(60000, 3000000), func(t *rapid.T) {
